@@ -45,6 +45,7 @@ APP_ACTIONS = {
     'send_pong': lambda ws: ws.send_pong(b'u'),
     'close': lambda ws: ws.close(),
     'close-3001': lambda ws: ws.close(3001, 'app'),
+    'send_text!fail': lambda ws: (W.current().fail_sendall.append(OSError(32, 'Broken pipe (injected)')), ws.send_text('hi')),
 }
 APP_FRAMES = {
     'send_text': (TEXT, b'hi'), 'send_binary': (BINARY, b'\x00\x01'), 'send_ping': (PING, b'k'), 'send_pong': (PONG, b'u'),
